@@ -333,6 +333,8 @@ func checkC13(c *Ctx, k WKCase) *Verdict {
 		return v
 	}
 	v.Evals += len(exA) + len(exB)
+	c.Rep.Extra["programs"] = asF(c.Rep.Extra["programs"]) + 1
+	c.Rep.Extra["disagreements_checked"] = asF(c.Rep.Extra["disagreements_checked"]) + float64(len(exA))
 	for i := range exA {
 		if i >= len(exB) {
 			break
